@@ -195,6 +195,7 @@ package martian
 //@   requires p != nil
 //@   modifies gotReq
 //@   ensures[any-read-error-closes] result1 != nil ==> result1 == errClose && result0 == nil
+//@   at select 0 before assert[waiting-for-a-request-also-waits-for-the-closing-signal; C07] waitsOn(p.closing)
 //@   assumes result1 == nil ==> result0 != nil && result0.URL != nil && result0.Body != nil && result0.Header != nil && fresh(result0)
 //@   assumes gotReq == (result1 == nil)
 
@@ -344,12 +345,20 @@ package martian
 //@   at call 0 of close after set chanClosedN = chanClosedN + 1
 //@ ghost var chanClosedN int
 
+// nAccepted / nHanded: connections returned by Accept / passed to a handler goroutine (which closes them, see
+// handleLoop): no accepted connection is dropped on the floor, also not one accepted while shutdown begins.
+//@ ghost var nAccepted int
+//@ ghost var nHanded int
 //@ func (*Proxy).Serve
 //@   serves C07
 //@   requires proxyReady(p) && !p.connsMu.held && l != nil
-//@   modifies closingSeen, l.lstClosed
+//@   modifies closingSeen, l.lstClosed, nAccepted, nHanded
 //@   ensures[listener-closed-on-return] l.lstClosed
 //@   at call 0 of Accept before assert[no-accept-once-closing-was-observed] !closingSeen
+//@   at call 0 of Accept after set nAccepted = nAccepted + ite(result1 == nil, 1, 0)
+//@   at call 0 of handleLoop before set nHanded = nHanded + 1
+//@   ensures[every-accepted-connection-is-handed-to-a-handler] nAccepted - old(nAccepted) == nHanded - old(nHanded)
+//@   loop 0 invariant nAccepted - old(nAccepted) == nHanded - old(nHanded)
 
 // ---------------------------------------------------------------------------------------------
 // C04: the copy goroutine of a blind tunnel. When the source of one direction ends, the destination has to be told
